@@ -184,6 +184,10 @@ func VerifSpeakerConverge(event int) {
 	if event == 7 {
 		w.svcs[0] = vhLBService("a", ipA.String(), "fd00::5")
 	}
+	if event == 8 {
+		// dual-stack with the IPv6 address listed first (the election key is the first address)
+		w.svcs[0] = vhLBService("a", "fd00::5", ipA.String())
+	}
 	L := w.fresh()
 	vr.Reach("history speaker started")
 
@@ -229,6 +233,8 @@ func VerifSpeakerConverge(event int) {
 	case 6: // configuration change: the BGP advertisement stops / starts selecting this node
 		w.cfg = vhCfg([]string{"eth0"}, false, l2me, vr.Bool())
 		st = L.c.SetConfig(lg, w.cfg)
+	case 8: // the dual-stack service is simply delivered once more (an update that changes nothing)
+		st = L.c.SetBalancer(lg, w.names[0], w.svcs[0], w.eps[0])
 	case 7: // a dual-stack service keeps only one of its addresses
 		w.svcs[0] = vhLBService("a", ipA.String())
 		st = L.c.SetBalancer(lg, w.names[0], w.svcs[0], w.eps[0])
